@@ -32,10 +32,17 @@ pub mod deferred_now {
     //@ opaque src/deferred_now.rs struct DeferredNow
     //@   dropattr #[derive
     impl DeferredNow {
-        /// identity of the one timestamp holder created per log call (C20)
-        pub uninterp spec fn fresh(&self) -> bool;
+        /// C20 "all outputs of one record carry the same timestamp": the identity of a timestamp holder. Two calls of
+        /// `DeferredNow::new()` return holders whose origins are unrelated unknowns; every output keeps the origin of the
+        /// holder it is handed (`final(now).origin() == old(now).origin()`); `DeferredNow::now()` reads the clock once per
+        /// holder (unit `dnow`). So "every output was handed a holder of one origin" is "one timestamp".
+        pub uninterp spec fn origin(&self) -> int;
         #[verifier::external_body]
-        pub fn new() -> (r: DeferredNow) ensures r.fresh() { unimplemented!() }
+        pub fn new() -> (r: DeferredNow) ensures is_origin(r.origin()) { unimplemented!() }
+    }
+    /// marker (always usable as a trigger): o is the origin of a holder that exists in this call
+    pub uninterp spec fn is_origin(o: int) -> bool;
+    impl DeferredNow {
     }
 }
 pub mod log_specification {
@@ -66,11 +73,12 @@ pub mod filter {
     pub uninterp spec fn filter_ok(record: &Record) -> bool;
     /// token fact: only a call of the line filter's write establishes it
     pub uninterp spec fn filter_called() -> bool;
+    pub uninterp spec fn filter_called_from(origin: int) -> bool;
     pub trait LogLineFilter: Send + Sync {
         fn write(&self, now: &mut DeferredNow, record: &Record, log_line_writer: &dyn LogLineWriter) -> std::io::Result<()>
             requires
                 filter_ok(record), //@label LogLineFilter::write.perm C02,C13
-            ensures filter_called(),
+            ensures filter_called(), filter_called_from(old(now).origin()), final(now).origin() == old(now).origin(),
         ;
     }
 }
@@ -82,12 +90,13 @@ pub mod primary_writer {
     pub uninterp spec fn pw_ok(record: &Record) -> bool;
     /// token fact: only a call of PrimaryWriter::write establishes it
     pub uninterp spec fn pw_written() -> bool;
+    pub uninterp spec fn pw_written_from(origin: int) -> bool;
     pub uninterp spec fn pw_flushed() -> bool;
     impl PrimaryWriter {
         //@ sig src/primary_writer.rs impl PrimaryWriter / fn write
         //@   props C02,C13
         //@   req[PrimaryWriter::write.perm] pw_ok(record)
-        //@   ens pw_written()
+        //@   ens pw_written() && pw_written_from(old(now).origin()) && final(now).origin() == old(now).origin()
         //@ sig src/primary_writer.rs impl PrimaryWriter / fn flush
         //@   ens pw_flushed()
     }
@@ -104,6 +113,7 @@ pub mod writers {
     pub uninterp spec fn ow_ok(wid: int, record: &Record) -> bool;
     /// token fact: only a call of write on the additional writer with this identity establishes it
     pub uninterp spec fn ow_written(wid: int) -> bool;
+    pub uninterp spec fn ow_written_from(wid: int, origin: int) -> bool;
     pub uninterp spec fn ow_flushed(wid: int) -> bool;
     /// SHIM: the methods of `trait LogWriter` that FlexiLogger calls
     pub trait LogWriter: Send + Sync {
@@ -113,7 +123,7 @@ pub mod writers {
         fn write(&self, now: &mut DeferredNow, record: &Record) -> std::io::Result<()>
             requires
                 ow_ok(self.wid(), record), //@label LogWriter::write.perm C13
-            ensures ow_written(self.wid()),
+            ensures ow_written(self.wid()), ow_written_from(self.wid(), old(now).origin()), final(now).origin() == old(now).origin(),
         ;
         fn flush(&self) -> std::io::Result<()>
             ensures ow_flushed(self.wid());
@@ -207,6 +217,14 @@ pub mod flexi_logger {
     //@   ens[log.post.every_named_writer] forall|k: int| is_brace(record_target(record)) && 0 <= k < pieces(record_target(record)).len() && pieces(record_target(record))[k] != "_Default"@
     //@       && (#[trigger] str_lookup(self.writers(), pieces(record_target(record))[k])) is Some ==> super::writers::ow_written(str_lookup(self.writers(), pieces(record_target(record))[k])->Some_0.wid())
     //@   ens[log.post.default_channel] self.primary_allowed(record) ==> (if self.has_filter() { super::filter::filter_called() } else { super::primary_writer::pw_written() })
+    //@   props C20
+    //@   loop 1 inv[log.loop.one_now] super::deferred_now::is_origin(now.origin()) && forall|k: int| 0 <= k < it.index@ && pieces(record_target(record))[k] != "_Default"@ && (#[trigger] str_lookup(self.writers(), pieces(record_target(record))[k])) is Some
+    //@       ==> super::writers::ow_written_from(str_lookup(self.writers(), pieces(record_target(record))[k])->Some_0.wid(), now.origin())
+    //@   ens[log.post.one_timestamp] exists|o: int| #[trigger] super::deferred_now::is_origin(o)
+    //@       && (forall|k: int| is_brace(record_target(record)) && 0 <= k < pieces(record_target(record)).len() && pieces(record_target(record))[k] != "_Default"@
+    //@           && (#[trigger] str_lookup(self.writers(), pieces(record_target(record))[k])) is Some ==> super::writers::ow_written_from(str_lookup(self.writers(), pieces(record_target(record))[k])->Some_0.wid(), o))
+    //@       && (self.primary_allowed(record) ==> (if self.has_filter() { super::filter::filter_called_from(o) } else { super::primary_writer::pw_written_from(o) }))
+    //@   props C02,C13
     //@   loop 1 inv[log.loop.default] use_default ==> exists|k: int| 0 <= k < it.index@ && #[trigger] pieces(record_target(record))[k] == "_Default"@
     //@   loop 1 inv it.seq().len() == pieces(record_target(record)).len() && forall|k: int| 0 <= k < it.seq().len() ==> (#[trigger] it.seq()[k])@ == pieces(record_target(record))[k]
     //@   closure ~text_filter.map_or ## sig |text_filter: Option<&Regex>| -> (r: bool)
